@@ -90,9 +90,18 @@ public:
     const col_range_type& cols() const { return my_cols; }
 
 private:
+    //! True if dimension b is the one to split rather than dimension a.
+    /** A dimension that is not divisible is never preferred to a divisible one, whatever the
+        rounding of the floating-point comparison of the size/grainsize ratios says. */
+    template <typename RangeA, typename RangeB>
+    static bool prefer_second( const RangeA& a, const RangeB& b ) {
+        if ( a.is_divisible() != b.is_divisible() ) return b.is_divisible();
+        return a.size()*double(b.grainsize()) < b.size()*double(a.grainsize());
+    }
+
     template <typename Split>
     void do_split( blocked_range2d& r, Split& split_obj ) {
-        if ( my_rows.size()*double(my_cols.grainsize()) < my_cols.size()*double(my_rows.grainsize()) ) {
+        if ( prefer_second(my_rows, my_cols) ) {
             my_cols.my_begin = col_range_type::do_split(r.my_cols, split_obj);
         } else {
             my_rows.my_begin = row_range_type::do_split(r.my_rows, split_obj);
